@@ -1,8 +1,228 @@
+import Qentem.Model.Expr
+import Qentem.Model.ExprSpec
 import Qentem.Driver.Proto
 namespace Qentem.Driver.Expr
-open Qentem.Driver
+open Qentem.Driver Qentem.Expr
 
-/-- Stub: replaced by the area's model driver. `op` is the first token of the line. -/
-def handle (_op : String) (_args : List String) : String := "bad-op"
+/-!
+Driver of the C04 model.
+
+  expeval <mode> <vars> <units>     model at `R := Float`
+  expexact <mode> <vars> <units>    model at `R := Rat` (exact arithmetic)
+
+`mode`: `m` = the text is the inside of `{math:…}`, `i` = the inside of `<if case="…">`,
+`p` = the whole buffer handed to `ParseExpressions` (exact size: reads past it are faults).
+`vars`: `-` or `name=K…;name=K…` with K = n<dec> | i<dec> | r<16 hex> | t | f | z | s<u.u.u> | o.
+Output: `<desc> <truth> <flags>`; desc = `V n|i <dec bits>` / `V r <16 hex>` (`V r num/den` for
+expexact) / `NP` (scanner gave no list) / `NE` (no value) / `F…` (model fault);
+truth = `1` iff there is a value and it is `> 0`; flags: `ta` = text operand under arithmetic
+(outside the modelled domain), `TREE!` = flat evaluation and tree evaluation differ (never).
+-/
+
+def hexDigit (n : Nat) : Char := if n < 10 then Char.ofNat (48 + n) else Char.ofNat (55 + n)
+
+def hex16 (n : Nat) : String :=
+  String.ofList ((List.range 16).map (fun i => hexDigit ((n / 16 ^ (15 - i)) % 16)))
+
+def parseHex (s : String) : Option Nat :=
+  s.toList.foldlM (fun acc c =>
+    if '0' ≤ c ∧ c ≤ '9' then some (acc * 16 + (c.toNat - 48))
+    else if 'A' ≤ c ∧ c ≤ 'F' then some (acc * 16 + (c.toNat - 55))
+    else if 'a' ≤ c ∧ c ≤ 'f' then some (acc * 16 + (c.toNat - 87))
+    else none) 0
+
+/-! ### a small literal reader (exact on the literals the generator produces) -/
+
+structure Lit where
+  neg : Bool
+  mant : Nat       -- all digits, without the point
+  fracDigits : Nat
+  expNeg : Bool
+  exp : Nat
+  isReal : Bool
+
+def isDigit (c : Nat) : Bool := 48 ≤ c && c ≤ 57
+
+def takeDigits : List Nat → List Nat × List Nat
+  | [] => ([], [])
+  | c :: r => if isDigit c then let (d, r') := takeDigits r; (c :: d, r') else ([], c :: r)
+
+def digitsVal (d : List Nat) : Nat := d.foldl (fun a c => a * 10 + (c - 48)) 0
+
+/-- sign? digits [. digits] [e sign? digits]; no leading zeros; at least one digit before the point -/
+def readLit (s : List Nat) : Option Lit :=
+  let (neg, s) := match s with
+    | 45 :: r => (true, r) | 43 :: r => (false, r) | _ => (false, s)
+  let (ip, s) := takeDigits s
+  if ip.isEmpty then none
+  else if ip.length > 1 && ip.head? == some 48 then none
+  else
+    let (fp, s, hasDot) := match s with
+      | 46 :: r => let (f, r') := takeDigits r; (f, r', true)
+      | _ => ([], s, false)
+    if hasDot && fp.isEmpty then none
+    else
+      match s with
+      | [] => some ⟨neg, digitsVal (ip ++ fp), fp.length, false, 0, hasDot⟩
+      | c :: r =>
+        if c == 101 || c == 69 then
+          let (eneg, r) := match r with
+            | 45 :: r' => (true, r') | 43 :: r' => (false, r') | _ => (false, r)
+          let (ed, r) := takeDigits r
+          if ed.isEmpty || !r.isEmpty then none
+          else some ⟨neg, digitsVal (ip ++ fp), fp.length, eneg, digitsVal ed, true⟩
+        else none
+
+def pow10F (k : Nat) : Float := (10 ^ k).toUInt64.toFloat
+
+def litNumFloat (l : Lit) : Option (Num Float) :=
+  if !l.isReal then
+    if !l.neg then (if l.mant < W64 then some (.nat l.mant) else none)
+    else if l.mant == 0 then some (.real (Float.ofBits H64.toUInt64))
+    else if l.mant ≤ H64 - 1 then some (.int (ofInt (-(l.mant : Int)))) else none
+  else
+    -- value = mant * 10^(±exp - fracDigits): one correctly rounded operation
+    if l.mant ≥ 2 ^ 53 then none else
+    let m : Float := l.mant.toUInt64.toFloat
+    let e : Int := (if l.expNeg then -(l.exp : Int) else (l.exp : Int)) - (l.fracDigits : Int)
+    if e.natAbs > 22 then none else
+    let v := if e ≥ 0 then m * pow10F e.toNat else m / pow10F e.natAbs
+    some (.real (if l.neg then -v else v))
+
+def litNumRat (l : Lit) : Option (Num Rat) :=
+  if !l.isReal then
+    if !l.neg then (if l.mant < W64 then some (.nat l.mant) else none)
+    else if l.mant == 0 then some (.real 0)
+    else if l.mant ≤ H64 - 1 then some (.int (ofInt (-(l.mant : Int)))) else none
+  else
+    let e : Int := (if l.expNeg then -(l.exp : Int) else (l.exp : Int)) - (l.fracDigits : Int)
+    let m : Rat := (l.mant : Rat)
+    let v : Rat := if e ≥ 0 then m * ((10 ^ e.toNat : Nat) : Rat) else m / ((10 ^ e.natAbs : Nat) : Rat)
+    some (.real (if l.neg then -v else v))
+
+def readNumFloat (s : List Nat) : Option (Num Float) := (readLit s).bind litNumFloat
+def readNumRat (s : List Nat) : Option (Num Rat) := (readLit s).bind litNumRat
+
+/-! ### variables -/
+
+inductive VSpec where
+  | nat (n : Nat) | int (i : Int) | real (bits : Nat) | tru | fals | null | str (s : List Nat) | other
+
+def parseVar (e : String) : Option (List Nat × VSpec) :=
+  match e.splitOn "=" with
+  | [name, v] =>
+    let nm := name.toList.map Char.toNat
+    match v.toList with
+    | 'n' :: r => (String.ofList r).toNat?.map (fun n => (nm, .nat n))
+    | 'i' :: r => (String.ofList r).toInt?.map (fun n => (nm, .int n))
+    | 'r' :: r => (parseHex (String.ofList r)).map (fun n => (nm, .real n))
+    | ['t'] => some (nm, .tru)
+    | ['f'] => some (nm, .fals)
+    | ['z'] => some (nm, .null)
+    | ['o'] => some (nm, .other)
+    | 's' :: r =>
+      if r.isEmpty then some (nm, .str [])
+      else (((String.ofList r).splitOn ".").mapM (fun (t : String) => t.toNat?)).map (fun u => (nm, VSpec.str u))
+    | _ => none
+  | _ => none
+
+def parseVars (s : String) : Option (List (List Nat × VSpec)) :=
+  if s == "-" then some [] else (s.splitOn ";").mapM parseVar
+
+/-- exact rational of a finite double -/
+def ratOfBits (b : Nat) : Rat :=
+  let sign : Nat := b / 2 ^ 63
+  let e : Nat := (b / 2 ^ 52) % 2048
+  let f : Nat := b % 2 ^ 52
+  let m : Nat := 2 ^ 52 + f
+  let mag : Rat :=
+    if e == 0 then (f : Rat) / ((2 ^ 1074 : Nat) : Rat)
+    else if e ≥ 1075 then (m : Rat) * ((2 ^ (e - 1075) : Nat) : Rat)
+    else (m : Rat) / ((2 ^ (1075 - e) : Nat) : Rat)
+  if sign == 1 then -mag else mag
+
+def vFloat : VSpec → VarVal Float
+  | .nat n => .nat n | .int i => .int (ofInt i) | .real b => .real (Float.ofBits b.toUInt64)
+  | .tru => .tru | .fals => .fals | .null => .null | .str s => .str s | .other => .other
+
+def vRat : VSpec → VarVal Rat
+  | .nat n => .nat n | .int i => .int (ofInt i) | .real b => .real (ratOfBits b)
+  | .tru => .tru | .fals => .fals | .null => .null | .str s => .str s | .other => .other
+
+def mkEnv {R} (conv : VSpec → VarVal R) (rn : List Nat → Option (Num R)) (content : List Nat)
+    (vars : List (List Nat × VSpec)) : Env R where
+  content := content
+  lookup v :=
+    let name := (content.drop v.off).take v.len
+    (vars.find? (fun p => p.1 == name)).map (fun p => conv p.2)
+  readNum := rn
+
+/-! ### running the model -/
+
+def mathPrefix : List Nat := "{math:".toList.map Char.toNat
+def ifPrefix : List Nat := "<if case=\"".toList.map Char.toNat
+def ifSuffix : List Nat := "\">T<else />F</if>".toList.map Char.toNat
+
+def frame (mode : String) (u : List Nat) : Option (List Nat × Nat × Nat) :=
+  if mode == "m" then some (mathPrefix ++ u ++ [125], 6, 6 + u.length)
+  else if mode == "i" then some (ifPrefix ++ u ++ ifSuffix, 10, 10 + u.length)
+  else if mode == "p" then some (u, 0, u.length)
+  else none
+
+def showFault : Fault → String
+  | .oobRead i n => s!"Foob:{i}/{n}"
+  | .fuel => "Ffuel"
+  | .divZero => "Fdiv0"
+  | .sremOverflow => "Fsrem"
+
+section
+variable {R : Type} [RealLike R]
+
+def descOf (showReal : R → String) : Option (Val R) → String
+  | some (.num (.nat b)) => s!"V n {b}"
+  | some (.num (.int b)) => s!"V i {b}"
+  | some (.num (.real r)) => s!"V r {showReal r}"
+  | some (.text _ _) => "NE"
+  | some (.var _) => "NE"
+  | none => "NE"
+
+def truthOf : Option (Val R) → Bool
+  | some (.num n) => n.positive
+  | _ => false
+
+def runModel (showReal : R → String) (conv : VSpec → VarVal R) (rn : List Nat → Option (Num R))
+    (mode : String) (vars : List (List Nat × VSpec)) (u : List Nat) : String :=
+  match frame mode u with
+  | none => "bad-op"
+  | some (content, off, endO) =>
+    let cfg : ScanCfg R := { readNum := rn }
+    match parseTop cfg content off endO with
+    | .error e => showFault e ++ " 0 -"
+    | .ok [] => "NP 0 -"
+    | .ok items =>
+      let env := mkEnv conv rn content vars
+      let flat := evaluateTop env true items
+      let tree := climb items
+      let viaTree := evalTop env tree
+      let d := descOf showReal flat
+      let flags := (if tree.textArith then "ta" else "-") ++
+        (if descOf showReal viaTree != d || !wfItems items then ",TREE!" else "")
+      s!"{d} {showBool (truthOf flat)} {flags}"
+
+end
+
+def showRat (r : Rat) : String := s!"{r.num}/{r.den}"
+
+def handle (op : String) : List String → String
+  | [mode, vs, us] =>
+    match parseVars vs, parseNats us with
+    | some vars, some u =>
+      if op == "expeval" then
+        runModel (R := Float) (fun x => hex16 x.toBits.toNat) vFloat readNumFloat mode vars u
+      else if op == "expexact" then
+        runModel (R := Rat) showRat vRat readNumRat mode vars u
+      else "bad-op"
+    | _, _ => "bad-op"
+  | _ => "bad-op"
 
 end Qentem.Driver.Expr
